@@ -28,6 +28,7 @@ def lex_one(camp, text, origin):
     from norminette.lexer import Lexer
     n = len(text)
     case = {"mode": "lex", "name": "x.c", "text": text, "origin": origin}
+    core.note_current("x.c", text)      # (keeps the hard watchdog of the worker armed: a spin inside a C call cannot be counted in steps)
     try:
         with budget.monitor(budget.budget_for(n)) as cnt:
             toks = list(Lexer(File("x.c", text)))
@@ -360,6 +361,18 @@ def _dispatch(fn, kw):
     return fn(**kw)
 
 
+def shard_long_runs(sizes):
+    camp = core.Campaign()
+    long_runs(camp, sizes)
+    return camp
+
+
+def shard_raw_bytes():
+    camp = core.Campaign()
+    raw_bytes(camp)
+    return camp
+
+
 def run(pid, tier, seed):
     t0 = time.time()
     # self-test of the budget monitor: a spinning loop over a monitored method must be stopped
@@ -378,9 +391,7 @@ def run(pid, tier, seed):
     for name, rc in core.regress_cases(pid):
         for kk, what in replay(pid, rc["case"]):
             camp.fail(kk, what, rc["case"])
-    long_runs(camp, runs)
-    raw_bytes(camp)
-    jobs = []
+    jobs = [dict(fn=shard_long_runs, kw=dict(sizes=runs)), dict(fn=shard_raw_bytes, kw={})]     # (in workers, like everything that runs the tool)
     sizes = {}
     for n in range(1, k + 1):
         total = 24 ** n
